@@ -183,6 +183,47 @@ def h_single(e, cfg):
         check_trainer(e, tr, model, "single", " ; ".join(prog), i)
 
 
+def h_layers(e, cfg):
+    """One trainer, cells from two DIFFERENT layers of identical structure (same monitor names, attribute paths and tags):
+    each cell's monitors record its own layer's steps only."""
+    L = {k: build_layer("serial") for k in ("A", "B")}        # (layer, {"A": cell}, neuron)
+    cells = {k: L[k][1]["A"] for k in L}
+    tr = stdp()
+    e.tag(scenario="two-layers")
+    model = {}
+    for c in cfg["initial"]:
+        tr.register_cell(c, cells[c])
+        model[c] = dict(obs_post=[], obs_pre=[])
+    ops = ["step A", "step B", "del A", "reg A", "del B", "reg B", "t.clear"]
+    prog, n = [], 0
+    for i in range(cfg["free"]):
+        op = ops[e.choose(len(ops))]
+        prog.append(op)
+        if op.startswith("step"):
+            k = op[-1]
+            layer, _, neuron = L[k]
+            post = e.sym((1, 2), torch.bool, f"post{n}", ind=True)
+            x = e.sym((1, 2), torch.bool, f"x{n}", ind=True)
+            n += 1
+            neuron.script.append(post)
+            layer(x)
+            if k in model:
+                model[k]["obs_post"].append(e.read(post)); model[k]["obs_pre"].append(e.read(x))
+        elif op.startswith("del"):
+            k = op[-1]
+            if k in model:
+                tr.del_cell(k); del model[k]
+        elif op.startswith("reg"):
+            k = op[-1]
+            if k not in model:
+                tr.register_cell(k, cells[k]); model[k] = dict(obs_post=[], obs_pre=[])
+        else:
+            tr.clear()
+            for k in model:
+                model[k] = dict(obs_post=[], obs_pre=[])
+        check_trainer(e, tr, model, "layers", " ; ".join(prog), i)
+
+
 def h_two(e, cfg):
     """A second trainer on the same cell (same monitor names) never disturbs the first."""
     import inferno.learn as learn
@@ -279,13 +320,15 @@ def checks(tier):
     two = [dict(first=a, second=b, free=(5 if th else (4 if a == "mstdpet" and b == "stdp" else 3)), first_op=k) for a, b in (("stdp", "stdp"), ("stdp", "stdp-other"), ("mstdpet", "stdp"), ("mstdpet", "mstdpet"), ("stdp", "mstdpet"))
            for k in range(7)]
     o = {"max_paths": 400000, "query_timeout_ms": 60000, "max_violations": 4}
-    return [Check("single_trainer", h_single, single, opts=o, timeout_s=3000), Check("two_trainers", h_two, two, opts=o, timeout_s=3000)]
+    lay = [dict(initial=ini, free=(4 if th else 3)) for ini in (["A", "B"], ["A"], [])]
+    return [Check("single_trainer", h_single, single, opts=o, timeout_s=3000), Check("two_trainers", h_two, two, opts=o, timeout_s=3000),
+            Check("two_layers", h_layers, lay, opts=o, timeout_s=3000)]
 
 
 BOUNDS = {
     "quick": {"programs": "all programs of 3-4 operations (after the fixed prefixes [], [step], [step, step], [step, del A], [t.eval, step]; 2 operations after the arm/disarm-cycle prefixes [t.eval, t.train], [t.eval, t.train, t.eval, t.train], [L.eval, L.train, t.eval, t.train], [step, t.eval, t.train, t.eval]) over {layer step, trainer train/eval, layer train/eval, add_monitor/del_monitor of a user monitor (in the configurations that enable it), "
                           "trainer clear, del/register cell A/B, trainer step}; two-trainer programs of 4 operations over {step, t2 register/del/eval/train/clear, drop t2}",
-              "layers": "Serial (1 cell) and a Biclique whose two cells share the post-synaptic group", "trainers": "STDP (one or two, same or different hyper-parameters), MSTDPET",
+              "layers": "Serial (1 cell), a Biclique whose two cells share the post-synaptic group, and one trainer over two separate Serial layers of identical structure (programs of 3 operations)", "trainers": "STDP (one or two, same or different hyper-parameters), MSTDPET",
               "observations": "fresh symbolic spikes each step; monitor contents compared with the closed-form trace over exactly the armed steps"},
     "thorough": {"programs": "5 operations"},
 }
